@@ -4,6 +4,7 @@
 //!
 //! Independent oracle (not diffed, appended as ` ||ORACLE:C10:<site> …`):
 //!   * F5-prealloc-exceeds-max : `Arena::new` with prealloc > max panics (debug) / keeps the failed charge (release)
+//!   * F5-prealloc-capacity-overflow : same site, prealloc ≤ max but > isize::MAX (reservation fails)
 //!   * usage-exceeds-max       : a call returned Ok, no call failed before, and accounted usage > max
 //!   * arena-content           : the arena bytes differ from a reference `Vec<u8>` replay
 //!   * held-exceeds-max        : arena length or vec length × item size exceeds max after an Ok call
@@ -128,7 +129,12 @@ pub fn run(line: &str) -> String {
                 limiter.verif_current_usage()
             ));
         } else {
-            s.push_str(" ||ORACLE:C10:arena-new-panic panic with prealloc <= max");
+            // try_reserve_exact(prealloc) failed although the charge passed (prealloc > isize::MAX:
+            // CapacityOverflow); same swallowed-failure site as F5
+            s.push_str(&format!(
+                " ||ORACLE:C10:F5-prealloc-capacity-overflow Arena::new panics (debug_assert) with prealloc={prealloc} <= max={max}; usage left at {}",
+                limiter.verif_current_usage()
+            ));
         }
         return s;
     };
